@@ -98,13 +98,14 @@ def run(ctx) -> int:
         for m in r["mismatches"][:20]:
             ctx.mismatches.append({"op": m["op"], "program": m["program"], "impl": str(m["impl"])[:400], "model": str(m["model"])[:400]})
         ctx.cov["samples"].append({"correspondence": "binding analysis", "evaluations": r["evaluations"]})
-    known = {f["id"]: f for f in core.findings_for(ctx)}
+    own = {f["id"]: f for f in core.findings_for(ctx)}
+    known = {f["id"]: f for f in core.findings_by_site(ctx)}
     default = semcheck.flags_only(*[t for t in semcheck.ALL_TRAITS if t != "duplication"])
     allf = semcheck.flags_only(*semcheck.ALL_TRAITS)
     H = corpus.harvest()
     texts = [t for _, t in ctx.rng.sample(H, 110 if ctx.quick() else len(H))]
     texts += [gen.mutate(ctx.rng, ctx.rng.choice(H)[1]) for _ in range(50 if ctx.quick() else 2000)]
-    for f in known.values():
+    for f in own.values():
         texts.append(f["witness"]["program"])
     cases = []
     for k, t in enumerate(texts):
